@@ -100,7 +100,9 @@ func VerifC22CrashAtomicWrite() {
 	zzvf.Assume(zzvf.Implies(vfBlockValid(mix), zzvf.Or(zzvf.BytesEq(mix, oldBlock), zzvf.BytesEq(mix, newBlock))))
 
 	// a new process reads the block
-	reader := vfNewRegistryMap(1)
+	// ... with a read-write registry map (writer transaction) or a read-only one (reader transaction)
+	readOnly := zzvf.Choose("reader-is-read-only", 2) == 1
+	reader := vfNewRegistryMapMode(1, !readOnly)
 	res, err := reader.fetch(ctx, []sop.RegistryPayload[sop.UUID]{{RegistryTable: vfTable, IDs: []sop.UUID{hOld.LogicalID}}})
 	zzvf.Assert(err == nil, "read-after-crash-no-error")
 	if err != nil {
@@ -124,8 +126,11 @@ func VerifC22CrashAtomicWrite() {
 	}
 	zzvf.Assert(zzvf.Or(sawOld, sawNew), "reader-sees-old-or-new-handle")
 	after := d.getSeg(vfSegPath(1))
-	zzvf.Assert(zzvf.Or(zzvf.BytesEq(after, oldBlock), zzvf.BytesEq(after, newBlock)), "block-on-disk-entirely-old-or-new")
-	zzvf.Assert(vfBlockValid(after), "block-on-disk-valid-after-recovery")
+	if !readOnly {
+		// (a read-only reader cannot repair the file; the next read-write access does)
+		zzvf.Assert(zzvf.Or(zzvf.BytesEq(after, oldBlock), zzvf.BytesEq(after, newBlock)), "block-on-disk-entirely-old-or-new")
+		zzvf.Assert(vfBlockValid(after), "block-on-disk-valid-after-recovery")
+	}
 	zzvf.Reach("c22-read-after-crash")
 
 	// a later writer must be able to update the block again
